@@ -250,10 +250,37 @@ def _reshape(fn_node):
     return fn_node
 
 
-def normal_form(fn_node, rename_calls=None) -> str:
+class _Keywordify(ast.NodeTransformer):
+    """self.m(a, p2=b) -> self.m(a, b) with the parameter order of m as the class resolves it, so that positional and
+    keyword spellings of one call read alike"""
+
+    def __init__(self, resolver):
+        self.resolver = resolver
+
+    def visit_Call(self, node):
+        self.generic_visit(node)
+        f = node.func
+        if isinstance(f, ast.Attribute) and isinstance(f.value, ast.Name) and f.value.id == "self" and \
+                not any(isinstance(a, ast.Starred) for a in node.args) and all(k.arg for k in node.keywords):
+            params = self.resolver(f.attr)
+            if params is not None and len(node.args) <= len(params):
+                kws = [ast.keyword(arg=p, value=a) for p, a in zip(params, node.args)] + list(node.keywords)
+                given = {k.arg for k in kws}
+                # all arguments by position (parameter names differ between the twins) when they fill a prefix of
+                # the parameter list
+                if len(given) == len(kws) and given == set(params[:len(kws)]):
+                    by = {k.arg: k.value for k in kws}
+                    node.args = [by[p] for p in params[:len(kws)]]
+                    node.keywords = []
+        return node
+
+
+def normal_form(fn_node, rename_calls=None, resolver=None) -> str:
     from .semantic import sem_norm
     node = copy.deepcopy(fn_node)
     node.decorator_list = []
+    if resolver is not None:
+        node = _Keywordify(resolver).visit(node)
     t = _Alpha(local_names(node), rename_calls or {})
     node = t.visit(node)
     node = _reshape(node)
